@@ -3,6 +3,7 @@ use serde_json::Value;
 
 pub mod c01;
 pub mod c02;
+pub mod c03;
 pub mod child;
 pub mod c04;
 pub mod c05;
@@ -56,11 +57,19 @@ const C10_ASSUMPTIONS: &[&str] = &[
     "wall-clock watchdog expiry is inconclusive (exit 2), CPU-limit expiry is a violation",
 ];
 
+const C03_ASSUMPTIONS: &[&str] = &[
+    "the unoptimised interpreter (`hyeong run -O0`) is the yardstick (tied to the definition by C01); cases where it disagrees with the reference model are excluded and counted",
+    "emitted programs are compiled with the installed rustc against a number-only rlib built from the current /repo tree (`--cfg feature=\"number\"`), which is what the project's own build path links against",
+    "the source is obtained from compile::build_source exactly as src/app/build.rs calls it, in a child process",
+    "only programs the reference model finishes within its step budget are compiled and run; bounded by rustc throughput (hundreds of programs in quick, tens of thousands in thorough)",
+];
+
 pub fn info(id: &str) -> Option<PropInfo> {
     Some(match id {
         "C01" => PropInfo { run: c01::run, replay: c01::replay, gates: c01::gates, rule: c01::RULE, assumptions: EXEC_ASSUMPTIONS },
         "C02" => PropInfo { run: c02::run, replay: c02::replay, gates: c02::gates, rule: c02::RULE, assumptions: DIFF_ASSUMPTIONS },
         "C10" => PropInfo { run: c10::run, replay: c10::replay, gates: c10::gates, rule: c10::RULE, assumptions: C10_ASSUMPTIONS },
+        "C03" => PropInfo { run: c03::run, replay: c03::replay, gates: c03::gates, rule: c03::RULE, assumptions: C03_ASSUMPTIONS },
         "C04" => PropInfo { run: c04::run, replay: c04::replay, gates: c04::gates, rule: c04::RULE, assumptions: PARSE_ASSUMPTIONS },
         "C08" => PropInfo { run: c08::run, replay: c08::replay, gates: c08::gates, rule: c08::RULE, assumptions: PARSE_ASSUMPTIONS },
         "C05" => PropInfo { run: c05::run, replay: c05::replay, gates: c05::gates, rule: c05::RULE, assumptions: NUM_ASSUMPTIONS },
